@@ -95,11 +95,13 @@ PROPS = {
         "Losslessness, positions and longest match depend on the character sequence and are not decided.",
     },
     "C14": {
-        "rules": ["D1", "D5"],
+        "rules": ["D1", "D5", "W2"],
         "claim": "Decides the bytes-vs-characters clause of C14 over the data crate: no UTF-8 byte length (str::len / String::len) reaches a "
         "character-count sink (take/skip/nth on chars(), a CharList(n) header, the result of get_char_list_len), and the literal parsers "
         "contain no truncating char->u8 cast; (D5) an escape accumulator that has been decoded is emptied before it accumulates the next "
-        "escape, on every path of the literal parsers (typestate over their MIR). Radix parsing and round-trips are value-level and not decided.",
+        "escape, on every path of the literal parsers (typestate over their MIR); (W2) a number literal is stored as the number it spells: the "
+        "hash that alone keys SimpleGarnishData's constant table separates every two numbers the type distinguishes (so `5.0` after `5` is not "
+        "handed the Integer's address). Radix parsing and round-trips are value-level and not decided.",
     },
     "C15": {
         "rules": ["D2", "D3", "W1", "W2"],
@@ -203,10 +205,13 @@ PROPS = {
         "Counts and order across a whole program are not decided.",
     },
     "C09": {
-        "rules": ["N1", "N2", "N3"],
+        "rules": ["N1", "N2", "N3", "W2"],
         "claim": "Decides the no-wrap/no-trap/finiteness clauses of C09 on the code of impl GarnishNumber for SimpleNumber and its helpers: "
         "no raw or unchecked integer arithmetic, every overflow flag is branched on, no saturating float->int cast, every Float "
-        "built from an arithmetic result is dominated by a test excluding NaN and +-inf. The numeric exactness of std's "
+        "built from an arithmetic result is dominated by a test excluding NaN and +-inf; and (W2) the result an operation stores reads "
+        "back as that number: SimpleGarnishData interns stored numbers by their 64-bit hash alone, so SimpleNumber's hand-written Hash must "
+        "feed the hasher a lossless encoding that keeps the Integer/Float variant apart (a narrowing cast, or a float hashed as the equal "
+        "integer, makes `0.5 + 1.5` read back as the Integer 2 already in the store). The numeric exactness of std's "
         "overflowing_*/f64 operations is trusted, not decided.",
     },
     "C12": {
